@@ -58,7 +58,7 @@ WhyH(rec) ==
   ELSE IF \E p \in memo : p[1] = rec.ses /\ p[2] = rec.key /\ p[3] # rec.dig THEN "RepeatedCallDiffers"
   ELSE ""
 Why(rec) == LET w == IF rec.op = "gr" THEN WhyG(rec) ELSE WhyS(rec) IN IF w # "" THEN w ELSE WhyH(rec)
-Expected(rec) == (IF rec.op = "gr" THEN GCase(rec, WHist(rec)) ELSE SCase(rec)) @@ [rec |-> l]
+Expected(rec) == (IF rec.op = "gr" THEN GCase(rec, WHistAuto(rec)) ELSE SCase(rec)) @@ [rec |-> l]
 
 Init == l = 1 /\ bad = "" /\ memo = {}
 Step == /\ l <= Len(Tr) /\ bad = ""
